@@ -132,19 +132,29 @@ pub fn m_histories_queries(sizes: &[usize], set: bool) -> Vec<Vec<String>> {
                     q(&mut h, &stored, &mut c);
                 }
                 for (j, &i) in del.iter().enumerate() {
-                    if j % 3 == 2 {
+                    if j % 3 == 2 || !stored.contains(&i) {
                         continue;
                     }
-                    // the same key before and after its neighbour is removed
-                    let probe = key(stored[(c + j) % stored.len()]);
+                    // ask about the in-order successor (or another stored key) before and after its neighbour
+                    // is removed, and on every other round once more after the successor itself is removed
+                    let succ = stored.iter().copied().filter(|x| *x > i).min();
+                    let probe_i = match (succ, j % 4) {
+                        (Some(sx), 0 | 1 | 2) => sx,
+                        _ => stored[(c + j) % stored.len()],
+                    };
+                    let probe = key(probe_i);
                     h.push(format!("QG({probe})"));
                     h.push(format!("QF({probe})"));
                     h.push(if j % 2 == 0 { format!("Del({})", key(i)) } else { format!("DelH({})", key(i)) });
                     stored.retain(|x| *x != i);
+                    if probe_i != i && j % 4 == 1 {
+                        h.push(if j % 8 == 1 { format!("Del({probe})") } else { format!("DelH({probe})") });
+                        stored.retain(|x| *x != probe_i);
+                    }
                     if stored.is_empty() {
                         break;
                     }
-                    if probe != key(i) {
+                    if probe_i != i {
                         h.push(format!("QG({probe})"));
                         h.push(format!("QF({probe})"));
                     }
